@@ -16,7 +16,7 @@ FOOTPRINT = ["ExtSet", "ExtDel", "Expire", "ExpireAll", "ExpireV", "Refresh", "C
 def spec(chk):
     q = chk.quick
     return dict(
-        cfgs=[dict(name="ext", acts=["SetV", "Expire", "ExpireV", "Refresh", "Read", "Query", "Ext"], depth=6, edge_sample=0.12 if q else 0.4,
+        cfgs=[dict(name="ext", acts=["SetV", "Expire", "ExpireV", "Refresh", "Read", "Query", "Ext"], depth=6, edge_sample=0.12 if q else 0.6,
                    edge_probs={"Read": 0.6, "QueryAll": 0.6, "Refresh": 0.3} if q else {},
                    deep_depth=7 if q else 8, eoc=True, legacy=True, random=200 if q else 2000)],
         invs=INVS, props=PROPS, footprint=FOOTPRINT,
